@@ -4,6 +4,95 @@
 use super::*;
 use crate::verif_common::*;
 
+
+use crate::compiler::ast::{BinOp, BinOpKind, Const, Expr, Spanned, Var};
+use crate::value::ValueRepr;
+use crate::Value;
+
+fn cg_sp() -> Span {
+    Span { start_line: 1, start_col: 0, start_offset: 0, end_line: 1, end_col: 0, end_offset: 0 }
+}
+
+/// A code generator in its initial state (built field by field: `CodeGenerator::new` takes its scratch
+/// buffers from a thread-local pool, which kani-compiler 0.68 cannot translate).
+fn fresh_generator() -> CodeGenerator<'static> {
+    CodeGenerator {
+        instructions: Instructions::new("t", ""),
+        blocks: BTreeMap::new(),
+        pending_block: Vec::new(),
+        current_line: 0,
+        span_stack: Vec::new(),
+        filter_local_ids: BTreeMap::new(),
+        test_local_ids: BTreeMap::new(),
+        raw_template_bytes: 0,
+    }
+}
+
+// Stubs for the four thread-local buffer-pool helpers (any harness from which they are reachable aborts
+// kani-compiler 0.68, DESIGN Part II section 0): fresh empty buffers, nothing recycled.
+pub(crate) fn take_pending_stub() -> Vec<PendingBlock> {
+    Vec::new()
+}
+pub(crate) fn take_span_stub() -> Vec<Span> {
+    Vec::new()
+}
+pub(crate) fn recycle_pending_stub(buf: Vec<PendingBlock>) {
+    core::mem::forget(buf);
+}
+pub(crate) fn recycle_span_stub(buf: Vec<Span>) {
+    core::mem::forget(buf);
+}
+
+macro_rules! binop_codegen_harness {
+    ($name:ident, $op:expr, $instr:pat, $const_right:expr) => {
+        #[kani::proof]
+        #[kani::unwind(5)]
+        #[kani::stub(alloc::fmt::format, crate::verif_common::format_stub)]
+        #[kani::stub(crate::compiler::codegen::take_pending_block_buffer, take_pending_stub)]
+        #[kani::stub(crate::compiler::codegen::take_span_stack_buffer, take_span_stub)]
+        #[kani::stub(crate::compiler::codegen::recycle_pending_block_buffer, recycle_pending_stub)]
+        #[kani::stub(crate::compiler::codegen::recycle_span_stack_buffer, recycle_span_stub)]
+        fn $name() {
+            // `x OP c` / `c OP x` for ANY i64 literal c: nothing about a variable operand is known at
+            // load time, so the code generator must emit the variable lookup, the literal and the
+            // operator - whatever the literal is (no "neutral element" shortcut: `x + 0` still fails
+            // for a string x, `x * 1` still copies a sequence, `x ~ ""` still stringifies).
+            let c: i64 = kani::any();
+            let var = Expr::Var(Spanned::new(Var { id: "x" }, cg_sp()));
+            let lit = Expr::Const(Spanned::new(Const { value: Value::from(c) }, cg_sp()));
+            let (left, right) = if $const_right { (var, lit) } else { (lit, var) };
+            let e = Expr::BinOp(Spanned::new(BinOp { op: $op, left, right }, cg_sp()));
+            let mut g = fresh_generator();
+            g.compile_expr(&e);
+            let (ivar, ilit) = if $const_right { (0, 1) } else { (1, 0) };
+            assert!(g.instructions.get(3).is_none());
+            assert!(matches!(g.instructions.get(ivar), Some(Instruction::Lookup("x"))));
+            match g.instructions.get(ilit) {
+                Some(Instruction::LoadConst(Value(ValueRepr::I64(v)))) => assert!(*v == c),
+                _ => assert!(false),
+            }
+            assert!(matches!(g.instructions.get(2), Some($instr)));
+            kani::cover!(c == 0);
+            kani::cover!(c == 1);
+            core::mem::forget((g, e));
+        }
+    };
+}
+
+// @verif-block props=C04 cap=900 group=core doc=code_generation_for_`x_OP_c`_and_`c_OP_x`_with_a_variable_x_and_ANY_i64_literal_c:_exactly_[Lookup_x,_LoadConst_c,_OP]_in_operand_order_-_no_literal_value_makes_the_generator_drop_or_replace_the_run-time_operation
+binop_codegen_harness!(c04_codegen_var_add_lit, BinOpKind::Add, Instruction::Add, true); // tier=quick
+binop_codegen_harness!(c04_codegen_var_mul_lit, BinOpKind::Mul, Instruction::Mul, true); // tier=quick
+binop_codegen_harness!(c04_codegen_lit_sub_var, BinOpKind::Sub, Instruction::Sub, false); // tier=quick
+binop_codegen_harness!(c04_codegen_var_sub_lit, BinOpKind::Sub, Instruction::Sub, true); // tier=thorough
+binop_codegen_harness!(c04_codegen_lit_add_var, BinOpKind::Add, Instruction::Add, false); // tier=thorough
+binop_codegen_harness!(c04_codegen_lit_mul_var, BinOpKind::Mul, Instruction::Mul, false); // tier=thorough
+binop_codegen_harness!(c04_codegen_var_div_lit, BinOpKind::Div, Instruction::Div, true); // tier=thorough
+binop_codegen_harness!(c04_codegen_var_floordiv_lit, BinOpKind::FloorDiv, Instruction::IntDiv, true); // tier=thorough
+binop_codegen_harness!(c04_codegen_var_rem_lit, BinOpKind::Rem, Instruction::Rem, true); // tier=thorough
+binop_codegen_harness!(c04_codegen_var_pow_lit, BinOpKind::Pow, Instruction::Pow, true); // tier=thorough
+binop_codegen_harness!(c04_codegen_var_concat_lit, BinOpKind::Concat, Instruction::StringConcat, true); // tier=thorough
+// @verif-end
+
 #[cfg(test)]
 mod playback {
     use super::*;
